@@ -219,7 +219,7 @@ def check_C01(tier, seed):
     progs += run.export("GenQuery", "G1-leaves", "PROG", constants=dict(G="G12", NV=1, LeafLimit=70, MaxLeaves=1, MaxNot=1,
                                                                         NeedNot=False), count=False)
     # conditions that mention no variable (a constant membership test), alone and combined with ordinary ones
-    konst = run.export("GenQuery", "G1k", "PROG", constants=dict(G="G1k", NV=1, LeafLimit=9, MaxLeaves=2, MaxNot=1, NeedNot=False),
+    konst = run.export("GenQuery", "G1k", "PROG", constants=dict(G="G1k", NV=1, LeafLimit=11, MaxLeaves=2, MaxNot=1, NeedNot=False),
                        count=False)
     for p in (rng.sample(konst, min(len(konst), 400)) if quick else konst):
         W = datasets.random_world(rng, rng.randint(2, 6))
@@ -986,7 +986,7 @@ def check_C05(tier, seed, extra_programs=None):
             q = mk_query(p, doms, declare="random")
             qc.add(W, [q, copy.deepcopy(q)], _c05_events(rng, b3=True))
     # constant conditions (no variable at all) alone and combined with ordinary ones
-    konst = run.export("GenQuery", "G1k", "PROG", constants=dict(G="G1k", NV=1, LeafLimit=9, MaxLeaves=2, MaxNot=1, NeedNot=False),
+    konst = run.export("GenQuery", "G1k", "PROG", constants=dict(G="G1k", NV=1, LeafLimit=11, MaxLeaves=2, MaxNot=1, NeedNot=False),
                        count=False)
     for p in rng.sample(konst, min(len(konst), 300 if quick else 3000)):
         W, doms = _world_and_doms(rng, 1, quick)
@@ -1142,6 +1142,26 @@ def check_C10(tier, seed):
                                                                       ForAllKeepsConditionVars=True), invariants=("Mech4EqualsSem",))
         run.mc("MechCheck", "b4-before-the-repair", constants=dict(b4, G="G3y", NV=3, LeafLimit=8, ForAllKeepsConditionVars=False),
                invariants=("Mech4EqualsSem",), expect_violation="Mech4EqualsSem", count=False)
+        # conditions of three leaves under the quantifier (a disjunction nested in a conjunction and vice versa)
+        three = run.export("GenQuery", "G3-3leaves", "PROG", constants=dict(G="G3", NV=2, LeafLimit=5, MaxLeaves=3, MaxNot=0,
+                                                                           NeedNot=False), invariants=("Export", "WellFormed"), count=False)
+        three = [p for p in three if count_nodes(p["cond"], "cmp") + count_nodes(p["cond"], "in") >= 3]
+        # the quantifier standing alone over a plain universal, its condition mixing and_ and or_ (the free variable is
+        # bound by the quantifier itself, some branches leave it unbound): all of them; the rest sampled
+        def leaves_x_unbound(c):      # a disjunction one branch of which mentions the free variable and the other does not
+            if c["k"] == "or":
+                sides = ['"i": 1' in json.dumps(c["l"]), '"i": 1' in json.dumps(c["r"])]
+                if sides[0] != sides[1]:
+                    return True
+            return any(leaves_x_unbound(c[k]) for k in ("l", "r", "c") if isinstance(c.get(k), dict) and "k" in c[k]
+                       and c[k]["k"] in ("and", "or", "forall", "not"))
+        mixed = [p for p in three if p["cond"]["k"] == "forall" and '"sub"' not in json.dumps(p["cond"]["ue"])
+                 and count_nodes(p["cond"], "and") >= 1 and leaves_x_unbound(p["cond"])]
+        for p in mixed * (2 if quick else 5) + rng.sample(three, min(len(three), 400 if quick else 20000)):
+            W, doms = _world_and_doms(rng, 2, quick)
+            plain = '"k": "sub' not in json.dumps(p["cond"])
+            qc.add(W, [mk_query(p, doms, declare="given") if plain else mk_query(p, doms)],
+                   [dict(drain_ev(), b3=plain), dict(drain_ev(), b3=plain)], tag="three-leaves")
         # a second free variable that occurs only under the quantifier: x qualifies when some y makes the universal
         # statement true; the for_all is then evaluated once per binding of x
         progs = run.export("GenQuery", "G3y-bfs", "PROG", constants=dict(G="G3y", NV=3, LeafLimit=10, MaxLeaves=2, MaxNot=1,
@@ -1646,6 +1666,13 @@ def check_C09(tier, seed):
         q = {"vars": [{"cls": "A", "dom": doms[0]}, {"cls": "A", "dom": doms[1]}], "flats": [], "bound": [],
              "desc": "entity", "quant": "infer", "sel": [], "cond": p["cond"], "head": p["head"], "varkeys": [1, 2]}
         add(W, q, "infer")
+    # predicates called on constants only (no variable among the arguments), alone and combined with ordinary conditions
+    konst = run.export("GenQuery", "G1k", "PROG", constants=dict(G="G1k", NV=1, LeafLimit=11, MaxLeaves=2, MaxNot=1, NeedNot=False),
+                       count=False)
+    konst = [p for p in konst if count_nodes(p["cond"], "pred") > 0]
+    for p in rng.sample(konst, min(len(konst), 120 if quick else 2000)):
+        W, doms = _world_and_doms(rng, 1, quick)
+        add(W, mk_query(p, doms), "drain")
     # a variable whose domain is a query that uses predicates: an evaluation abandoned inside a block, then full ones
     # inside and outside blocks
     sprogs = run.export("GenTerm", "subdom", "PROG", constants=dict(Part="subdom"), invariants=("Export",), count=False)
